@@ -118,7 +118,7 @@ class Dataset:
                         v = v.encode('utf8')
                     if not isinstance(v, bytes):
                         raise TypeError("fixed-width string dataset needs str/bytes, got %r" % type(v))
-                    arr[idx] = bytes(np.asarray(v, dtype=dtype))
+                    arr[idx] = bytes(np.asarray(v, dtype=dtype)[()])       # element access strips the padding, as a read does
         elif dtype is not None:
             arr = arr.astype(dtype)
         self._a = arr
